@@ -54,7 +54,8 @@ def call_builtin(E, fv, args, kwargs, st, node):
         return struct_model.call(E, obj.__name__, args, kwargs, st, node)
     if hasattr(builtins, name) and getattr(builtins, name) is obj:
         h = BUILTINS.get(name)
-        if h is None and E.externals.get(name) is not None:
+        if E.externals.get(name) is not None and (h is None or (args and isinstance(args[0], ObjV))):
+            # a builtin applied to an opaque object (next(iterator), len(obj) ...) follows the contract's assumed behaviour
             return E.externals[name](E, args, kwargs, st, node)
         if h is None:
             raise EngineError("builtin %s not modelled (line %s)" % (name, getattr(node, "lineno", "?")))
@@ -69,7 +70,6 @@ def call_builtin(E, fv, args, kwargs, st, node):
         return ext(E, args, kwargs, st, node)
     if isinstance(obj, type) and issubclass(obj, tuple) and hasattr(obj, "_fields"):
         # a collections.namedtuple class (stdlib semantics): a record of its fields
-        from .values import ObjV
         fields = list(obj._fields)
         if len(args) > len(fields) or any(k not in fields for k in kwargs) or any(f in kwargs for f in fields[:len(args)]):
             raise EngineError("bad arguments for namedtuple %s" % obj.__name__)
